@@ -1,10 +1,14 @@
 // C13 — any sequence of API calls behaves like a simple abstract seed model (stateful, model-based).
 #include "seqgen.hpp"
+#include "wrap.hpp"
 using namespace vf;
 
 static std::string oracle(const Case& c) {
     Evidence& ev = W().ev; std::vector<ops::Op> seq = ops::from_hex(c.get("ops"));
     ops::Machine m; m.fl.allow_inject = c.u("inject", 1) != 0; m.fl.strict_rand19 = false; m.fl.check_statics = true;
+#ifdef VERIF_WRAP
+    deps::wrap().enabled = true;   /* --wrap build: libc time/malloc/free are interposed (absent optional entries are modelled) and the process environment is a generated input */
+#endif
     m.start(m.fl.allow_inject);
     model::Golden::get();
     std::string r = m.run(seq); if (!r.empty()) return r + "   sequence: " + ops::describe(seq);
